@@ -1359,18 +1359,102 @@ pub fn gen_wide(rng: &mut Rng, width: usize) -> (World, ProblemSpec) {
 pub fn gen_chain(rng: &mut Rng, len: usize) -> (World, ProblemSpec) {
     let mut w = World::default();
     let mut next_s = 0u32;
+    // variants: every package hinted (the whole chain is encoded in one pass: thousands of task results in one encode
+    // call), more candidates per link, and a dead end (the last link needs a package without candidates, so that the
+    // conflict is found after a propagation round of `len` forced assignments)
+    let hint_all = rng.chance(1, 3);
+    let fat = rng.chance(1, 3);
+    let dead_end = rng.chance(1, 4);
+    // the expensive variants stay shorter: a dead end below a chain of multi-candidate links makes the solver climb back
+    // link by link, which is legitimate work that grows with the cube of the length (every newly tried candidate restarts the search, and every restart re-decides the whole chain)
+    let len = if fat && dead_end { len.min(300) } else if dead_end { len.min(600) } else if fat { len.min(1300) } else { len };
     for n in 0..len as u32 {
-        let k = if rng.chance(1, 10) { 2 } else { 1 };
+        let k = if fat { rng.range(2, 3) as u32 } else if rng.chance(1, 10) { 2 } else { 1 };
         let cands: Vec<u32> = (next_s..next_s + k).collect();
         next_s += k;
         for c in &cands {
-            let requirements = if (n as usize) + 1 < len { vec![Req::Single(n + 1)] } else { vec![] };
+            let requirements = if (n as usize) + 1 < len {
+                vec![Req::Single(n + 1)]
+            } else if dead_end {
+                vec![Req::Single(len as u32)]
+            } else {
+                vec![]
+            };
             w.solvables.insert(*c, Solvable { name: n, deps: Deps::Known { requirements, constrains: vec![] } });
         }
-        w.packages.insert(n, Package { candidates: cands.clone(), rank: cands.clone(), favored: None, locked: None, excluded: vec![], hint: Hint::None, missing: false });
+        w.packages.insert(n, Package { candidates: cands.clone(), rank: cands.clone(), favored: None, locked: None, excluded: vec![], hint: if hint_all { Hint::All } else { Hint::None }, missing: false });
         w.version_sets.insert(n, VersionSet { name: n, matches: cands });
     }
+    if dead_end {
+        let n = len as u32;
+        w.packages.insert(n, Package { candidates: vec![], rank: vec![], favored: None, locked: None, excluded: vec![], hint: Hint::None, missing: rng.chance(1, 2) });
+        w.version_sets.insert(n, VersionSet { name: n, matches: vec![] });
+    }
     (w, ProblemSpec { requirements: vec![Req::Single(0)], constraints: vec![], soft: vec![] })
+}
+
+/// Ladder family (a classic shape for clause-learning solvers): `rungs` two-way choices x_i | e_i at the root; both
+/// sides of rung i rule out the marker packages s_i and t_i through constrains; the last rung needs one of the t's
+/// (x side) resp. one of the s's (e side). Unsatisfiable; every learnt clause is derived from almost all earlier ones,
+/// so anything that walks the derivation of learnt clauses once per path instead of once per clause explodes. All
+/// packages have one candidate; hints on most seeds, so that everything is encoded up front.
+pub fn ladder(rng: &mut Rng, rungs: usize) -> (World, ProblemSpec) {
+    let mut w = World::default();
+    let mut next_vs = 0u32;
+    let mut next_union = 0u32;
+    let hint = if rng.chance(4, 5) { Hint::All } else { Hint::None };
+    // package ids: x_i = 4i, e_i = 4i+1, s_i = 4i+2, t_i = 4i+3 ; the single solvable of a package has the same id
+    let mut pkg = |w: &mut World, n: u32| {
+        w.solvables.insert(n, Solvable { name: n, deps: Deps::Known { requirements: vec![], constrains: vec![] } });
+        w.packages.insert(n, Package { candidates: vec![n], rank: vec![n], favored: None, locked: None, excluded: vec![], hint: hint.clone(), missing: false });
+    };
+    for i in 0..rungs as u32 {
+        for j in 0..4 {
+            pkg(&mut w, 4 * i + j);
+        }
+    }
+    let mut vs = |w: &mut World, name: u32, any: bool| -> u32 {
+        let id = next_vs;
+        next_vs += 1;
+        w.version_sets.insert(id, VersionSet { name, matches: if any { vec![name] } else { vec![] } });
+        id
+    };
+    let mut requirements = Vec::new();
+    let last = rungs as u32 - 1;
+    for i in 0..rungs as u32 {
+        let (x, e, s_, t) = (4 * i, 4 * i + 1, 4 * i + 2, 4 * i + 3);
+        if i < last {
+            for side in [x, e] {
+                let no_s = vs(&mut w, s_, false);
+                let no_t = vs(&mut w, t, false);
+                w.solvables.get_mut(&side).unwrap().deps = Deps::Known { requirements: vec![], constrains: vec![no_s, no_t] };
+            }
+        } else {
+            let ts: Vec<u32> = (0..last).map(|k| vs(&mut w, 4 * k + 3, true)).collect();
+            let ss: Vec<u32> = (0..last).map(|k| vs(&mut w, 4 * k + 2, true)).collect();
+            let mut req_of = |w: &mut World, members: Vec<u32>| -> Req {
+                if members.len() == 1 {
+                    Req::Single(members[0])
+                } else {
+                    let id = next_union;
+                    next_union += 1;
+                    w.unions.insert(id, members);
+                    Req::Union(id)
+                }
+            };
+            let rx = req_of(&mut w, ts);
+            let re = req_of(&mut w, ss);
+            w.solvables.get_mut(&x).unwrap().deps = Deps::Known { requirements: vec![rx], constrains: vec![] };
+            w.solvables.get_mut(&e).unwrap().deps = Deps::Known { requirements: vec![re], constrains: vec![] };
+        }
+        let ax = vs(&mut w, x, true);
+        let ae = vs(&mut w, e, true);
+        let id = next_union;
+        next_union += 1;
+        w.unions.insert(id, vec![ax, ae]);
+        requirements.push(Req::Union(id));
+    }
+    (w, ProblemSpec { requirements, constraints: vec![], soft: vec![] })
 }
 
 
